@@ -244,6 +244,11 @@ def _receive_path(ctx, thorough):
             for kind, dmg in _damage(fr, covered_from, ctx.rng, thorough):
                 lenpos = (6, 7) if gen == 4 else (18, 19)
                 sc = [("net", "accept"), ("open",), ("adv", 8), ("peerbytes", dmg.hex()), ("adv", 4)]
+                if all(dmg[i] == fr[i] for i in lenpos):
+                    # a console (or a bridge in between) that repeats the very same damaged frame on the connection the client
+                    # re-establishes: it must be refused every time, not only the first time
+                    for _ in range(ctx.rng.choice([0, 1, 2])):
+                        sc += [("peerbytes", dmg.hex()), ("adv", 4)]
                 if any(dmg[i] != fr[i] for i in lenpos):
                     # a damaged length field makes the receiver wait for bytes that never come (the stream is out of step):
                     # the console gives up on the connection, as it would after its own timeout
